@@ -1,6 +1,8 @@
 # Builds the verification workers from /repo's current working tree.
 REPO ?= /repo
 B ?= build
+# always absolute, so that the targets written to the -MMD dependency files match the rule targets whatever way make was invoked
+override B := $(abspath $(B))
 CXXSTD := -std=c++17
 DEFS := -DFASTSCAPELIB_VERIF_HOOKS -DNDEBUG -D_GLIBCXX_ASSERTIONS
 INC := -I$(REPO)/include
@@ -14,7 +16,7 @@ TSAN_FLAGS := -fsanitize=thread -fno-omit-frame-pointer -DVERIF_FLAVOUR='"tsan"'
 GXX := g++
 CLANGXX := clang++
 
-WORLD_GRIDS := profile raster_rook raster_queen raster_bishop raster_queen_nc raster_rook_nc trimesh
+WORLD_GRIDS := profile raster_rook raster_queen raster_bishop raster_queen_nc raster_rook_nc trimesh profile_nc raster_bishop_nc
 
 .PHONY: all pool world clean
 all: pool world
